@@ -301,7 +301,7 @@ func runCheckOpts(opts *CheckOpts) int {
 				"model": r.Model,
 			}
 			suffix := " no-failing-input-found"
-			if r.Status == "sat" && len(r.Model) > 0 {
+			if len(r.Model) > 0 {
 				confirmed, detail := replayModel(prog, o, r, rp)
 				rf["replay"] = detail
 				if confirmed {
